@@ -138,10 +138,11 @@ InL1(n) == /\ ~IsLeaf(n) /\ n.f \in EForms /\ Keep1(n)
 (***************************************************************************)
 (* folding sub-suite                                                         *)
 (***************************************************************************)
-AllSeeds == FoldSeeds \cup {FoldSeed(ts, "none") : ts \in UnfoldedSeeds}
+AllSeeds == FoldSeeds \cup {FoldSeed(ts, "none") : ts \in UnfoldedSeeds} \cup CheckerSeeds \cup ValidSeeds
 FoldRow(s) ==
   IF s.ws = <<>> THEN [ws |-> <<"bare">>, ts |-> s.seed.ts,
-                       expect |-> IF s.seed.class = "none" THEN "any" ELSE "Error:" \o s.seed.class]
+                       expect |-> CASE s.seed.class = "none" -> "any" [] s.seed.class = "Accepted" -> "Program"
+                                    [] s.seed.class = "Rejected" -> "Error" [] OTHER -> "Error:" \o s.seed.class]
   ELSE LET c == FoldCase(s.ws, s.seed) IN
        [ws |-> c.ws, ts |-> c.ts, expect |-> IF s.seed.class = "none" THEN "any" ELSE c.expect]
 
